@@ -16,6 +16,8 @@ var verifHarnesses = map[string]func(){
 	"VerifC13Syntax":       VerifC13Syntax,
 	"VerifC13Idempotent":   VerifC13Idempotent,
 	"VerifC13Reject":       VerifC13Reject,
+	"VerifC13GoValues":     VerifC13GoValues,
+	"VerifC13Sources":      VerifC13Sources,
 	"VerifC12Race":         VerifC12Race,
 	"VerifC12Updatable":    VerifC12Updatable,
 	"VerifC05Errors":       VerifC05Errors,
